@@ -74,7 +74,8 @@ def gen_cases(ctx):
                "origin": str(rng.choice(ORIGINS, p=[0.5, 0.15, 0.15, 0.1, 0.1]))}
     for i in range(ctx.share(ctx.scale(40, 800))):
         rng = ctx.rng(2, i)
-        yield {"kind": "reject", "seed": int(rng.integers(1 << 31)), "fault": ["n_grains", "n_snapshots", "n_fraction_lists"][i % 3]}
+        yield {"kind": "reject", "seed": int(rng.integers(1 << 31)), "fault": ["n_grains", "n_snapshots", "n_fraction_lists", "n_fraction_lists_short"][i % 4],
+               "where": ["second", "first", "only"][(i // 4) % 3]}
     if ctx.shard == 0:
         for combo in ("ol", "en"):
             for k in range(24):
@@ -133,7 +134,9 @@ def _aggregate(ctx, pydrex, case):
     P = core.MineralPhase
     rng = np.random.default_rng([int(case["seed"]), 5])
     if case["custom"]:
-        S = mn.StiffnessTensors(olivine=_spd6(rng), enstatite=_spd6(rng))
+        unit = [1.0, 1.0, 1e9, 1e-12][int(case["seed"]) % 4]   # GPa-like, Pa, compliance-like magnitudes (the average is linear)
+        S = mn.StiffnessTensors(olivine=_spd6(rng) * unit, enstatite=_spd6(rng) * unit)
+        ctx.cls(f"unit={unit:g}")
     else:
         S = mn.StiffnessTensors()
     by_phase = {P.olivine: S.olivine, P.enstatite: S.enstatite}
@@ -263,16 +266,26 @@ def _reject(ctx, pydrex, case):
     def mk(ph, n, steps):
         return _mineral(pydrex, ph, [gen.haar(rng, n) for _ in range(steps)], [np.full(n, 1 / n) for _ in range(steps)])
 
+    # the inconsistent mineral is listed second, first, or is the only one (then only its own lists can disagree)
+    where = case.get("where", "second")
+    fault = case["fault"]
+    if where == "only" and fault in ("n_grains", "n_snapshots"):
+        fault = "n_fraction_lists"
     a, b = mk(P.olivine, n, steps), mk(P.enstatite, n, steps)
-    if case["fault"] == "n_grains":
+    if fault == "n_grains":
         b = mk(P.enstatite, n + 1, steps)
-    elif case["fault"] == "n_snapshots":
+    elif fault == "n_snapshots":
         b = mk(P.enstatite, n, steps + 1)
-    else:
+    elif fault == "n_fraction_lists":
         b.fractions.append(np.full(n, 1 / n))
+    else:
+        b.orientations.append(gen.haar(rng, n))
     ctx.case(case)
+    ctx.cls(f"reject={fault}/{where}")
+    minerals, phases, fr = {"second": ([a, b], [P.olivine, P.enstatite], [0.6, 0.4]), "first": ([b, a], [P.olivine, P.enstatite], [0.6, 0.4]),
+                            "only": ([b], [P.enstatite], [1.0])}[where]
     try:
-        r = mn.voigt_averages([a, b], [P.olivine, P.enstatite], [0.6, 0.4])
+        r = mn.voigt_averages(minerals, phases, fr)
         ctx.check("rejects_mismatch", False, case, key="rejects_mismatch/returned", got=str(np.shape(r)))
     except ValueError:
         ctx.check("rejects_mismatch", True, case)
